@@ -23,22 +23,66 @@ def _coerce_validator(x):
     raise TraitError("invalid %r" % (x,))
 
 
+class _Falsy(object):
+    """a hashable object whose truth value is False (copies and pickles are the object itself)"""
+    def __init__(self, k):
+        self.k = k
+
+    def __bool__(self):
+        return False
+
+    def __copy__(self):
+        return self
+
+    def __deepcopy__(self, memo):
+        return self
+
+    def __reduce__(self):
+        return (_falsy, (self.k,))
+
+
+def _falsy(k):
+    return (_FALSY_A, _FALSY_B)[k]
+
+
+_FALSY_A, _FALSY_B = _Falsy(0), _Falsy(1)
+# representatives, rep == 2: without a validator every key / value is FALSY (0, '', None, (), ...)
+# items 151..154 (TraitDict.tla EqInvalid): floats equal to the int keys 1..4, used under validating key modes
+FALSY = {1: 0, 2: "", 3: None, 4: (), 11: b"", 12: frozenset(), 13: _FALSY_A, 99: _FALSY_B}
+
+
 def conc(vm, x, rep=0):
     if vm == "id":
+        if rep == 2:
+            return FALSY[x]
         return float(x) if rep == 1 else x
     if x in VALID:
         return x
     if x in (11, 12, 13):
         return str(x - 10)
+    if 151 <= x <= 154:
+        return float(x - 150)
     return "bad"
 
 
 def proj(x):
     if type(x) is int:
-        return x
+        return 1 if x == 0 else x
     if type(x) is float and x == int(x):
         return int(x)
+    if x is None:
+        return 3
+    if x is _FALSY_A:
+        return 13
+    if x is _FALSY_B:
+        return 99
+    if type(x) in (str, tuple, bytes, frozenset) and len(x) == 0:
+        return {str: 2, tuple: 4, bytes: 11, frozenset: 12}[type(x)]
     return 777
+
+
+def _rk(k):
+    return k - 150 if 151 <= k <= 154 else k
 
 
 def proj_pairs(d):
@@ -50,7 +94,7 @@ def proj_pairs(d):
 def perform(obj, op, a, ps, kvm, vvm, rep):
     """returns (ret_list, copy_or_None)"""
     ck = lambda k: conc(kvm, k, rep)
-    cv = lambda v: conc(vvm, v, 0)
+    cv = lambda v: conc(vvm, v, 2 if rep == 2 else 0)
     if op == "setitem":
         obj[ck(a[0])] = cv(a[1])
     elif op == "delitem":
@@ -66,7 +110,7 @@ def perform(obj, op, a, ps, kvm, vvm, rep):
         return [proj(obj.setdefault(ck(a[0]), cv(a[1])))], None
     elif op == "pop":
         if a[1] == 1:
-            return [proj(obj.pop(ck(a[0]), a[2]))], None
+            return [proj(obj.pop(ck(a[0]), cv(a[2]) if rep == 2 and vvm == "id" else a[2]))], None
         return [proj(obj.pop(ck(a[0])))], None
     elif op == "popitem":
         k, v = obj.popitem()
@@ -97,7 +141,7 @@ def execute(pre, op, a, ps, kvm, vvm, rep=0):
     exc = ""
     ret = [NONE]
     if op == "construct":
-        pairs = [(conc(kvm, k, rep), conc(vvm, v)) for k, v in ps]
+        pairs = [(conc(kvm, k, rep), conc(vvm, v, 2 if rep == 2 else 0)) for k, v in ps]
         try:
             td = TraitDict(dict(pairs) if a[0] == 0 else iter(pairs), key_validator=kv, value_validator=vv, notifiers=[rec])
             post = proj_pairs(td)
@@ -106,7 +150,11 @@ def execute(pre, op, a, ps, kvm, vvm, rep=0):
         except Exception as e:
             exc, post = type(e).__name__, []
     else:
-        td = TraitDict(dict((k, v) for k, v in pre), key_validator=kv, value_validator=vv, notifiers=[rec])
+        if rep == 2:
+            td = TraitDict(dict((conc(kvm, k, 2), conc(vvm, v, 2)) for k, v in pre), key_validator=kv, value_validator=vv,
+                           notifiers=[rec])
+        else:
+            td = TraitDict(dict((k, v) for k, v in pre), key_validator=kv, value_validator=vv, notifiers=[rec])
         try:
             ret, other = perform(td, op, a, ps, kvm, vvm, rep)
             if other is not None:
@@ -149,6 +197,8 @@ def case_fn(st, rep):
         return None
     if rep == 1 and last["kvm"] != "id":
         return None
+    if rep == 2 and not (last["kvm"] == "id" or last["vvm"] == "id"):
+        return None               # (the third representative differs only where there is no validator)
     r = execute([list(p) for p in last["pre"]], last["op"], list(last["a"]), [list(p) for p in last["ps"]],
                 last["kvm"], last["vvm"], rep)
     return {"fail": None, "line": r, "sample": r}
@@ -171,6 +221,9 @@ def history_lines(seed, ntraces, steps):
             ps = []
             ka = [1, 2, 3, 4, 11, 12, 13] + ([99] if rnd.random() < 0.15 else [])
             va = [1, 2, 3, 4, 11, 12] + ([99] if rnd.random() < 0.15 else [])
+            if kvm != "id" and rnd.random() < 0.3:
+                ka = ka + [151, 152, 153, 154]
+                keys = [1, 2, 3, 4, 151, 152, 153, 154]
             if op in ("setitem", "setdefault"):
                 a = [rnd.choice(ka), rnd.choice(va), 0]
             elif op == "delitem":
@@ -181,13 +234,13 @@ def history_lines(seed, ntraces, steps):
                 a[0] = rnd.randint(0, 1)
                 if a[0] == 0:
                     seen = set()
-                    ps = [p for p in ps if not (p[0] in seen or seen.add(p[0]))]
+                    ps = [p for p in ps if not (_rk(p[0]) in seen or seen.add(_rk(p[0])))]
             elif op == "pop":
                 h = rnd.randint(0, 1)
                 a = [rnd.choice(keys), h, 3 if h else 0]
             elif op == "copy":
                 a[0] = rnd.randint(0, 2)
-            rep = 1 if (kvm == "id" and rnd.random() < 0.3) else 0
+            rep = (1 if rnd.random() < 0.5 else 2) if (kvm == "id" and rnd.random() < 0.5) else 0
             r = execute(cur, op, a, ps, kvm, vvm, rep)
             r["tid"] = t
             out.append(r)
@@ -227,6 +280,7 @@ def owner_history_lines(seed, ntraces, steps):
     for t in range(ntraces):
         kvm, vvm = rnd.choice([("id", "id"), ("coerce", "coerce"), ("coerce", "id"), ("id", "coerce")])
         keys = [1, 2, 3, 4] + ([11, 12] if kvm == "id" else [])
+        falsy = kvm == "id" and vvm == "id" and rnd.random() < 0.5        # every key and value a falsy object
         o = _dict_owner(kvm, vvm)()
         events = []
 
@@ -240,13 +294,15 @@ def owner_history_lines(seed, ntraces, steps):
             del events[:]
             ka = [1, 2, 3, 4, 11, 12, 13] + ([99] if rnd.random() < 0.15 else [])
             va = [1, 2, 3, 4, 11, 12] + ([99] if rnd.random() < 0.15 else [])
+            if kvm != "id" and rnd.random() < 0.3:
+                ka = ka + [151, 152, 153, 154]
             a, ps, exc, ret, is_stale = [0, 0, 0], [], "", [NONE], 0
             u = rnd.random()
             if u < 0.14:
                 op = "assign"
                 ps = [[rnd.choice(ka), rnd.choice(va)] for _ in range(rnd.randint(0, 4))]
                 seen = set()
-                ps = [p for p in ps if not (p[0] in seen or seen.add(p[0]))]
+                ps = [p for p in ps if not (_rk(p[0]) in seen or seen.add(_rk(p[0])))]
                 if stale and rnd.random() < 0.4:
                     # (a superset / subset of a former value: one operation on that value can make the two equal)
                     ps = [list(p) for p in proj_pairs(rnd.choice(stale))] + [[rnd.choice([1, 2, 3, 4]), rnd.choice([1, 2, 3, 4])]]
@@ -254,7 +310,7 @@ def owner_history_lines(seed, ntraces, steps):
                     ps = [p for p in ps if p[0] < 700 and not (p[0] in seen or seen.add(p[0]))]
                 old = o.d
                 try:
-                    o.d = dict((conc(kvm, k), conc(vvm, v)) for k, v in ps)
+                    o.d = dict((conc(kvm, k, 2 if falsy else 0), conc(vvm, v, 2 if falsy else 0)) for k, v in ps)
                     stale.append(old)
                 except TraitError:
                     exc = "TraitError"
@@ -274,11 +330,11 @@ def owner_history_lines(seed, ntraces, steps):
                     a[0] = rnd.randint(0, 1)
                     if a[0] == 0:
                         seen = set()
-                        ps = [p for p in ps if not (p[0] in seen or seen.add(p[0]))]
+                        ps = [p for p in ps if not (_rk(p[0]) in seen or seen.add(_rk(p[0])))]
                 elif op == "pop":
                     h = rnd.randint(0, 1)
                     a = [rnd.choice(keys), h, 3 if h else 0]
-                if is_stale and rnd.random() < 0.6:
+                if is_stale and not falsy and rnd.random() < 0.6:
                     # steer the former value towards the current one
                     live, cur = dict(o.d), dict(target)
                     diff = [k for k in set(live) | set(cur) if live.get(k, None) != cur.get(k, None) or (k in live) != (k in cur)]
@@ -288,8 +344,9 @@ def owner_history_lines(seed, ntraces, steps):
                             op, a = "setitem", [k, live[k], 0]
                         elif type(k) is int:
                             op, a = "delitem", [k, 0, 0]
+                orep = 2 if falsy else 0
                 try:
-                    ret, _ = perform(target, op, a, ps, kvm, vvm, 0)
+                    ret, _ = perform(target, op, a, ps, kvm, vvm, orep)
                 except TraitError:
                     exc = "TraitError"
                 except Exception as e:
@@ -318,7 +375,7 @@ def run(rep, tier, seed):
                           heap="4g" if tier == "quick" else "12g")
         rep.add_tlc("TraitDictMC", res)
         trace = os.path.join(work, "trace.ndjson")
-        tot = cases.run_dump_cases(dump + ".dump", case_fn, out_ndjson=trace, reps=2)
+        tot = cases.run_dump_cases(dump + ".dump", case_fn, out_ndjson=trace, reps=3)
         os.unlink(dump + ".dump")
         if tot["ncases"] == 0:
             raise MachineryError("no cases in dump")
